@@ -12,6 +12,7 @@ package node
 import (
 	"context"
 	"fmt"
+	"math/rand"
 	"sort"
 	"strings"
 	"sync"
@@ -430,6 +431,7 @@ var c02Once sync.Once
 
 func c02Hygiene() {
 	c02Once.Do(func() { logf.SetLogger(logr.Discard()) })
+	rand.Seed(1) //nolint:staticcheck // vSwitch policy "random" draws from the global source: make cases repeatable
 	VerifSleepDivisor = 1000000
 	bo := wait.Backoff{Duration: time.Microsecond, Factor: 1, Steps: 3}
 	backoff.OverrideBackoff(map[string]wait.Backoff{
